@@ -127,7 +127,7 @@ structure St where
   /-- the value of the context variable `fsm_event_data` in the running context -/
   ctx : EvData := {}
   log : List (Nat × Entry) := []
-  deriving Repr, Inhabited
+  deriving DecidableEq, Repr, Inhabited
 
 inductive Res where
   | ret (accepted : Bool)
@@ -142,6 +142,12 @@ def St.fail (s : St) (k : ErrKind) : St :=
   match s.failed with
   | some _ => s
   | none => { s with failed := some k }
+
+/-- `self._state = q`: a new visit begins -/
+def St.enter (s : St) (q : String) : St := { s with state := some q, epoch := s.epoch + 1 }
+
+/-- `self._next_event = …` -/
+def St.setNextEv (s : St) (x : Option (TEvent × EvData × String)) : St := { s with next := x }
 
 /-- the loop's pending (non-cancelled) handles of this FSM -/
 def live (s : St) : List Handle := s.timers.filter (fun h => !h.cancelled)
@@ -195,15 +201,17 @@ def effDur (c : Cfg) (q : String) (item : Dur) : Dur :=
 
 /-! ### table lookup, conditions -/
 
+/-- the dictionary `_ct_transition` at the key `(event, state-or-None)`: `none` = no such key,
+    `some none` = the stored target is None -/
+def Table.lookupKey (t : Table) (e : String) (q : Option String) : Option (Option String) :=
+  (t.trans.find? (fun r => r.1 == e && r.2.1 == q)).map (·.2.2)
+
 /-- the rule for the current state, else the any-state rule; a stored `None` target of the
     specific rule does NOT fall through to the any-state rule -/
 def Table.lookup (t : Table) (e q : String) : Option String :=
-  match t.trans.find? (fun r => r.1 == e && r.2.1 == some q) with
-  | some r => r.2.2
-  | none =>
-    match t.trans.find? (fun r => r.1 == e && r.2.1 == none) with
-    | some r => r.2.2
-    | none => none
+  match t.lookupKey e (some q) with
+  | some v => v
+  | none => (t.lookupKey e none).getD none
 
 def Cfg.condsOf (c : Cfg) (e : String) : List Cond :=
   (c.conds.filter (fun p => p.1 == e)).map (·.2)
@@ -264,7 +272,7 @@ def post (c : Cfg) (s : St) (e : TEvent) (d : EvData) : St × Bool :=
   | (s1, .target q) =>
     match s1.next with
     | some _ => (s1.fail .circuitError, false)
-    | none => ({ s1 with next := some (e, d, q) }, true)
+    | none => (s1.setNextEv (some (e, d, q)), true)
   | (s1, .reject) => (s1, false)
   | (s1, .unknown) => (s1.fail .unknownEvent, false)
   | (s1, .error k) => (s1.fail k, false)
@@ -324,13 +332,13 @@ def exitCur (s : St) : St :=
     switched to its data and the exit action of the intermediate state runs -/
 def popNext (s : St) (d : EvData) (q : String) : St × EvData × String :=
   match s.next with
-  | some (_, d', q') => (exitCur (setCtx { s with next := none } d'), d', q')
+  | some (_, d', q') => (exitCur (setCtx (s.setNextEv none) d'), d', q')
   | none => (s, d, q)
 
 /-- the rest of a round: the state is entered, its entry action runs and, unless the entry action
     has posted an event, the timer of a timed state is started -/
 def enterState (c : Cfg) (s : St) (d : EvData) (q : String) : St :=
-  let s1 := runEnter c { s with state := some q, epoch := s.epoch + 1 } q
+  let s1 := runEnter c (s.enter q) q
   if s1.failed.isSome || s1.next.isSome then s1
   else match c.tbl.timedOf q with
     | none => s1
